@@ -28,6 +28,8 @@ import json
 import os
 import struct
 
+from harness import common
+
 from harness.common import SuiteResult, VERIF, drive, rng_for, run_evdrv
 from harness.world import chaingen
 from harness.world.chaingen import (Gen, GTx, GBlock, be, hashx_of, NORMAL_SCRIPTS,
@@ -46,6 +48,9 @@ class Crash(BaseException):
 # ------------------------------------------------------------------------------------------------
 # effect recording and crash injection
 # ------------------------------------------------------------------------------------------------
+
+HONOURS_DEADLINE = True      # the run loop stops when common.out_of_time()
+
 
 def _cstate(d):
     return (f'{d["height"]},{d["tx_count"]},{d["chain_size"]},{be(d["tip"])},'
@@ -1083,7 +1088,16 @@ def _run(entry, tier, seed):
     # 2. seeded generation, exhaustive cuts per run
     n_runs = (22 if reorg else 12) if tier == 'quick' else (360 if reorg else 160)
     groups_all = collision_groups(seed)
+    try:
+        known = [k for k in json.load(open(os.path.join(VERIF, 'known_findings.json'))).get('findings', [])
+                 if k.get('suite') == 'crash']
+    except OSError:
+        known = []
     for i in range(n_runs):
+        # (violations of the shape of a recorded finding do not end the search for a new one)
+        if common.out_of_time() or sum(1 for v in res.violations
+                                       if not any(matches_known(v, k) for k in known)) >= 12:
+            break
         rng = rng_for(seed, 'crash', entry, i)
         groups = [list(g) for g in groups_all] if i % 4 == 0 else None
         run = gen_run(rng, tier, groups, res, reorg=reorg, profile={1: 'prune', 2: 'histahead'}.get(i % 4))
@@ -1094,7 +1108,9 @@ def _run(entry, tier, seed):
                         'txs_per_block': [len(b.txs) for b in run.chain]})
         if any(k == 'disagreement' for k, _ in verdicts):
             res.bump('runs_with_disagreements')
-            if res.stats['runs_with_disagreements'] >= (4 if tier == 'quick' else 6):
+            # quick: stop early; thorough / extended failing-input search: keep looking for a run on which
+            # the property itself fails (bounded by the run count and the deadline)
+            if res.stats['runs_with_disagreements'] >= (4 if tier == 'quick' else 60):
                 break
     dedupe(res)
     res.violations = [shrink(v) for v in res.violations[:6]] + res.violations[6:]
